@@ -1203,6 +1203,13 @@ static void final_checks(void)
 					    LM[i].committed, (unsigned long long)i, need);
 			}
 		}
+		if(by_predicate) {
+			/* stop rule: at the first event after which every predicate has held (or when no event is left) */
+			size_t lo = ref_all_true ? ref_stop_lo : ref_total_events, hi = ref_all_true ? ref_stop_hi : ref_total_events;
+			if(M.n_forward < lo || M.n_forward > hi)
+				sim_violation("C10", "stop-rule", "serial run dispatched %llu events, a correct executor stops after %zu..%zu (%s)",
+				    (unsigned long long)M.n_forward, lo, hi, ref_all_true ? "all predicates hold" : "no event left");
+		}
 		if(P.m_absorbing && by_predicate)
 			for(lp_id_t i = 0; i < n; i++)
 				if(LM[i].fini_digest != REF[i].digest_first_true)
